@@ -115,7 +115,7 @@ impl Cfg {
             String::from_utf8_lossy(MECHS[self.mech]),
             ["ok", "byte0!=FF", "byte9!=7F"][self.sig as usize],
             id_len(self.identity),
-            ["READY", "other command", "message"][self.first as usize]
+            ["READY", "other command", "message", "PING command, then READY", "SUBSCRIBE command, then READY"][self.first as usize]
         )
     }
     fn identity_bytes(&self) -> Option<Vec<u8>> {
@@ -139,19 +139,30 @@ impl Cfg {
             _ => {}
         }
         let mut v = g;
-        match self.first {
-            0 => {
-                let mut props: Vec<(Vec<u8>, Vec<u8>)> = Vec::new();
-                if let Some(t) = PEER_TYPES[self.peer_type] {
-                    props.push((b"Socket-Type".to_vec(), t.as_bytes().to_vec()));
-                }
-                if let Some(id) = self.identity_bytes() {
-                    props.push((b"Identity".to_vec(), id));
-                }
-                v.extend(rc::encode_command(b"READY", &props));
+        let ready = || {
+            let mut props: Vec<(Vec<u8>, Vec<u8>)> = Vec::new();
+            if let Some(t) = PEER_TYPES[self.peer_type] {
+                props.push((b"Socket-Type".to_vec(), t.as_bytes().to_vec()));
             }
+            if let Some(id) = self.identity_bytes() {
+                props.push((b"Identity".to_vec(), id));
+            }
+            rc::encode_command(b"READY", &props)
+        };
+        match self.first {
+            0 => v.extend(ready()),
             1 => v.extend(rc::encode_command(b"ERROR", &[])),
-            _ => v.extend(rc::encode_message(&[b"x".to_vec()])),
+            2 => v.extend(rc::encode_message(&[b"x".to_vec()])),
+            // another well-formed command FIRST, and the READY this configuration would otherwise send right behind
+            // it (PING carries a 2-byte TTL in ZMTP 3.1; a property-less body is well-formed for the 3.0 command grammar)
+            3 => {
+                v.extend(rc::encode_command(b"PING", &[]));
+                v.extend(ready());
+            }
+            _ => {
+                v.extend(rc::encode_command(b"SUBSCRIBE", &[]));
+                v.extend(ready());
+            }
         }
         v
     }
@@ -189,20 +200,26 @@ fn scenario(cfg: &Cfg) -> Verdict {
         }
     }
     let announced = cfg.identity_bytes().filter(|i| !i.is_empty() && i.len() <= 255);
+    let announced_none = announced.is_none();
     let obs = std::rc::Rc::new(std::cell::RefCell::new(Vec::<String>::new()));
     let viol = std::rc::Rc::new(std::cell::RefCell::new(Vec::<(String, String)>::new()));
     let (obs2, viol2) = (obs.clone(), viol.clone());
     let trailing = cfg.trailing();
+    let vid_cell = std::rc::Rc::new(std::cell::RefCell::new(None::<Vec<u8>>));
+    let vid_cell2 = vid_cell.clone();
     world::spawn_app("app", async move {
         let mut sock = AnySocket::new(local, None);
         let r = e3::attach_raw(sock.backend(), victim).await;
         obs2.borrow_mut().push(format!("attach -> {}", e3::ok_or_err(&r)));
         world::log(format!("attach -> {}", e3::ok_or_err(&r)));
         let vid: Option<Vec<u8>> = r.as_ref().ok().map(|i| i.to_vec());
+        *vid_cell2.borrow_mut() = vid.clone();
         if let Some(id) = &vid {
             match &announced {
                 Some(a) if a != id => viol2.borrow_mut().push(("identity/not-the-announced-one".into(), format!("peer announced identity of {} bytes, registered under {}", a.len(), rc::hex(id)))),
-                None if id.len() != 16 => viol2.borrow_mut().push(("identity/auto-not-16-bytes".into(), format!("auto-assigned identity has {} bytes", id.len()))),
+                // "a fresh unique one": its length is the library's business, but it cannot be empty (every peer without
+                // an announced identity would share it) nor longer than an identity may be
+                None if id.is_empty() || id.len() > 255 => viol2.borrow_mut().push(("identity/auto-empty-or-oversized".into(), format!("the identity assigned to a peer that announced none has {} bytes", id.len()))),
                 _ => {}
             }
         }
@@ -268,7 +285,10 @@ fn scenario(cfg: &Cfg) -> Verdict {
     let mut v = Verdict::default();
     v.truncated = end != world::RunEnd::Quiescent;
     // auto-assigned identities are random: mask them before anything is compared or hashed
-    let o: Vec<String> = obs.borrow().iter().map(|l| mask_auto_ids(l)).collect();
+    // (whatever their length: the rendering of the identity the socket assigned to a peer that announced none is
+    // replaced too, so that a library whose assigned identities differ from run to run stays reproducible)
+    let assigned_rendering: Option<String> = if announced_none { vid_cell.borrow().as_ref().filter(|i| !i.is_empty()).map(|i| { let r = rc::show_frames(&[i.clone()]); r[1..r.len() - 1].to_string() }) } else { None };
+    let o: Vec<String> = obs.borrow().iter().map(|l| { let l = match &assigned_rendering { Some(r) => l.replace(r.as_str(), "<auto-id>"), None => l.clone() }; mask_auto_ids(&l) }).collect();
     let what = cfg.describe();
     let admitted = o.first().map(|s| s == "attach -> Ok");
     for p in world::panics() {
@@ -327,6 +347,7 @@ fn scenario(cfg: &Cfg) -> Verdict {
                 let r1 = o.iter().find(|l| l.starts_with("recv#1")).cloned().unwrap_or_default();
                 let r2 = o.iter().find(|l| l.starts_with("recv#2")).cloned().unwrap_or_default();
                 let ok1 = if local == Ty::Router && cfg.identity_bytes().filter(|i| !i.is_empty()).is_none() {
+                    // labelled with whatever identity the socket assigned (as returned by attach), of whatever length
                     r1 == format!("recv#1 -> Ok[<auto-id>,{}]", rc::hex(b"PROBE"))
                 } else {
                     // (the log masks every 16-byte frame, so an announced 16-byte identity is compared masked too)
@@ -473,7 +494,7 @@ pub fn run(tier: Tier, replay: Option<String>) -> i32 {
                 for mech in 0..MECHS.len() {
                     for sig in 0..3u8 {
                         for identity in 0..ID_LENS.len() {
-                            for first in 0..3u8 {
+                            for first in 0..5u8 {
                                 let cfg = Cfg {
                                     local,
                                     peer_type,
@@ -553,7 +574,7 @@ pub fn run(tier: Tier, replay: Option<String>) -> i32 {
     ck.cov("compat_queries", n_q);
     ck.cov("identity_length_sweep_handshakes", n_idsweep);
     ck.cov("exhaustive", true);
-    ck.cov("explanation", "complete product 9 local types x 15 peer Socket-Type values (12 names, FOO, req, missing) x 5 versions x 5 mechanisms x 3 signature variants x 5 identity options x 3 first items = 151875 real handshakes over in-memory pipes, each compared with the reference admission predicate; every configuration the reference admits is run a second time with a behavioural registration probe (second peer, strict alternation of 4 sends / exactly-once publish / routed send / reply); plus the identity axis in full (every Identity length 2..=254 and 257..=300 for every local type against each of the 12 peer type names, otherwise well-formed; admitted ones with the registration probe); plus all 144 compatible() queries under catch_unwind against the RFC table, incl. symmetry. states = configurations; transitions = handshake executions.");
+    ck.cov("explanation", "complete product 9 local types x 15 peer Socket-Type values (12 names, FOO, req, missing) x 5 versions x 5 mechanisms x 3 signature variants x 5 identity options x 5 first items (READY / another command / a message / PING then READY / SUBSCRIBE then READY) = 253125 real handshakes over in-memory pipes, each compared with the reference admission predicate; every configuration the reference admits is run a second time with a behavioural registration probe (second peer, strict alternation of 4 sends / exactly-once publish / routed send / reply); plus the identity axis in full (every Identity length 2..=254 and 257..=300 for every local type against each of the 12 peer type names, otherwise well-formed; admitted ones with the registration probe); plus all 144 compatible() queries under catch_unwind against the RFC table, incl. symmetry. states = configurations; transitions = handshake executions.");
     ck.assume("the handshake code is sequential: no scheduling choice influences admission (one execution per configuration, default schedule)");
     ck.assume("RFC compatibility table transcribed in c04.rs::rfc_compatible");
     ck.conclude()
